@@ -199,47 +199,103 @@ let kind4 left right outs =
 
 (* ---- kind 5 ---- *)
 let engine_s = function 0 -> "classic" | 1 -> "optimised" | 2 -> "pipeline(100,128,3)" | 3 -> "pipeline(1,0,1)" | 4 -> "pipeline(2,1,2)" | 5 -> "pipeline(3,7,8)" | _ -> "?"
+let engine_family = function 0 -> 0 | 1 -> 1 | _ -> 2
+
+let rec count_this = function
+  | This -> 1 | Computed _ | TTU (_, _) -> 0
+  | Union l | Inter l -> List.fold_left (fun a x -> a + count_this x) 0 l
+  | Diff (b, s) -> count_this b + count_this s
+let rec has_inter_diff = function
+  | This | Computed _ | TTU (_, _) -> false
+  | Union l -> List.exists has_inter_diff l
+  | Inter _ | Diff (_, _) -> true
+let all_reldefs m = List.concat_map (fun td -> td.td_rels) m
+(* model-wide features (the engines walk the whole graph reachable from the query; reachability is
+   not re-derived here) *)
+let dup_this m = List.exists (fun rd -> count_this rd.rd_rw > 1) (all_reldefs m)
+let model_inter_diff m = List.exists (fun rd -> has_inter_diff rd.rd_rw) (all_reldefs m)
+let model_conditions m = List.exists (fun rd -> List.exists (fun d -> d.r_cond <> N0) rd.rd_restr) (all_reldefs m)
+
+(* a stored tuple that validation accepts only because ANOTHER restriction of the same user type
+   carries its condition (DESIGN.md F4): strict = some restriction matches type, kind and condition *)
+let strictly_valid m t =
+  match List.find_opt (fun td -> td.td_type = t.t_obj.otype) m with
+  | None -> false
+  | Some td ->
+    (match List.find_opt (fun rd -> rd.rd_rel = t.t_rel) td.td_rels with
+     | None -> false
+     | Some rd ->
+       List.exists (fun d ->
+         d.r_type = (match t.t_sub with SObj o -> o.otype | SWild ty -> ty | SSet (o, _) -> o.otype) &&
+         d.r_cond = t.t_cond &&
+         (match d.r_kind, t.t_sub with
+          | RObj, SObj _ -> true | RWild, SWild _ -> true | RSet r, SSet (_, r') -> r = r' | _ -> false)) rd.rd_restr)
+
 let kind5 model conds tuples atoms maxdepth subjects =
   let (m, cs, store, ats, has_e) = scenario_common model conds tuples atoms in
   let md = nat_of_int (as_int maxdepth) in
   let fuel = nat_of_int (List.length ats + 3) in
   let strat = stratified m in
-  let props = ref [] and skipped = ref 0 and compared = ref 0 in
+  let strict_store = List.filter (fun t -> not (valid_for_read m cs t) || strictly_valid m t) store in
+  let loose_tuples = List.length strict_store <> List.length store in
+  let props = ref [] and knowns = ref [] in
+  if has_e || not strat then "OK"
+  else begin
   List.iter (fun sv ->
     match as_list sv with
     | [s; px; queries] ->
       let subj = dec_subject s in
       let pathx = List.map dec_pair (as_list px) in
       let (v, conv) = lfp m cs store subj ats in
+      let vstrict = lazy (fst (lfp m cs strict_store subj ats)) in
+      if conv then
       List.iter (fun qv ->
         match as_list qv with
         | [t; r; engines] ->
           let ty = n_of_int (as_int t) and rel = n_of_int (as_int r) in
           let objs = List.sort_uniq compare (List.filter_map (fun (o, _) -> if o.otype = ty then Some o else None) ats) in
-          let trig = List.exists (fun o ->
-            let (oset, tr) = check_top m cs store subj pathx md fuel o rel in
-            tr.tr_excl_sub_cycle || tr.tr_swallow || List.mem AFuel oset || List.mem AEd oset) objs in
-          if has_e || trig || not (strat && conv) then incr skipped
-          else begin
-            incr compared;
-            let expected = List.sort compare (List.filter_map (fun o ->
-              if atomval subj v o rel = T then Some (int_of_n o.otype, int_of_n o.oid) else None) objs) in
-            let show_set l = "{" ^ String.concat "," (List.map (fun (a, b) -> Printf.sprintf "t%d:%d" a b) l) ^ "}" in
-            List.iter (fun ev ->
+          let set_of vv = List.sort compare (List.filter_map (fun o ->
+              if atomval subj vv o rel = T then Some (int_of_n o.otype, int_of_n o.oid) else None) objs) in
+          let expected = set_of v in
+          let show_set l = "{" ^ String.concat "," (List.map (fun (a, b) -> Printf.sprintf "t%d:%d" a b) l) ^ "}" in
+          let res = List.map (fun ev ->
               match as_list ev with
               | [ei; ec; os] ->
-                let got = List.sort compare (List.map (fun p -> match ints p with [a; b] -> (a, b) | _ -> failwith "obj") (as_list os)) in
-                let where = Printf.sprintf "ListObjects(t%d#r%d@%s) engine=%s" (as_int t) (as_int r) (subj_s subj) (engine_s (as_int ei)) in
-                if as_int ec <> 0 then props := (Printf.sprintf "%s error class %d, reference set %s" where (as_int ec) (show_set expected)) :: !props
-                else if got <> expected then
-                  props := (Printf.sprintf "%s returned %s, reference set %s" where (show_set got) (show_set expected)) :: !props
-              | _ -> failwith "engine") (as_list engines)
+                (as_int ei, as_int ec,
+                 List.sort compare (List.map (fun p -> match ints p with [a; b] -> (a, b) | _ -> failwith "obj") (as_list os)))
+              | _ -> failwith "engine") (as_list engines) in
+          if List.for_all (fun (_, ec, _) -> ec = 7) res then ()   (* request rejected by validation, by every engine *)
+          else begin
+            let bad = List.filter (fun (_, ec, got) -> ec <> 6 && (ec <> 0 || got <> expected)) res in
+            if bad <> [] then begin
+              let trig = lazy (List.fold_left (fun (a, b, c) o ->
+                  let (oset, tr) = check_top m cs store subj pathx md fuel o rel in
+                  (a || tr.tr_excl_sub_cycle, b || tr.tr_swallow, c || List.mem AFuel oset || List.mem AEd oset)) (false, false, false) objs) in
+              List.iter (fun (ei, ec, got) ->
+                let where = Printf.sprintf "ListObjects(t%d#r%d@%s) engine=%s" (as_int t) (as_int r) (subj_s subj) (engine_s ei) in
+                let txt = if ec <> 0 then Printf.sprintf "%s error class %d, reference set %s" where ec (show_set expected)
+                  else Printf.sprintf "%s returned %s, reference set %s" where (show_set got) (show_set expected) in
+                let subset = ec = 0 && List.for_all (fun x -> List.mem x expected) got in
+                let (t_excl, t_sw, t_depth) = Lazy.force trig in
+                let fam = engine_family ei in
+                if t_excl then knowns := ("excl_sub_cycle " ^ txt) :: !knowns
+                else if t_sw then knowns := ("cond_err_swallowed " ^ txt) :: !knowns
+                else if t_depth then ()
+                else if fam = 2 && ec = 5 && dup_this m then knowns := ("lo_pipeline_hang_dup_this " ^ txt) :: !knowns
+                else if fam = 1 && ec = 3 && dup_this m then knowns := ("lo_optimised_error_dup_this " ^ txt) :: !knowns
+                else if fam = 2 && ec = 0 && loose_tuples && got = set_of (Lazy.force vstrict)
+                then knowns := ("lo_pipeline_strict_condition " ^ txt) :: !knowns
+                else props := (Printf.sprintf "%s [subset=%b dup_this=%b inter_diff=%b conds=%b loose=%b]" txt subset (dup_this m)
+                                 (model_inter_diff m) (model_conditions m) loose_tuples) :: !props) bad
+            end
           end
         | _ -> failwith "query") (as_list queries)
     | _ -> failwith "subject entry") (as_list subjects);
-  match List.rev !props with
-  | [] -> "OK"
-  | ps -> "PROP " ^ String.concat " || " (List.filteri (fun i _ -> i < 6) ps)
+  match List.rev !props, !knowns with
+  | [], [] -> "OK"
+  | [], k :: _ -> "KNOWN " ^ k
+  | ps, _ -> "PROP " ^ String.concat " || " (List.filteri (fun i _ -> i < 6) ps)
+  end
 
 let f _id vs =
   match vs with
